@@ -45,7 +45,6 @@ Mk(c, e, cap, stv, al) ==
    inl |-> (stv = 0), inlb |-> (Len(e) <= n), max |-> MaxSize, icap |-> n, ok |-> TRUE]
 
 Canon(len) == [i \in 1..len |-> <<i, 0>>]
-El(vals)   == [i \in 1..Len(vals) |-> <<vals[i], 0>>]
 
 BlockIds(blocks) == {blocks[j][1] : j \in 1..Len(blocks)}
 FreshId(blocks)  == CHOOSE i \in 1..(Len(blocks) + 1) : i \notin BlockIds(blocks)
